@@ -284,21 +284,27 @@ Proof.
 Qed.
 
 (** ** C05 on ASTs: reading the shorthand = the denotation of the longhand *)
-Theorem reader_sim_units fo a : units_ok fo a = true -> read_cgsmiles fo (print true a) = denote fo a.
+Theorem reader_sim_units_gen fo braces a : units_ok fo a = true -> read_cgsmiles fo (print braces a) = denote fo a.
 Proof.
-  unfold units_ok. intros H. apply andb_prop in H as [H Hok]. apply andb_prop in H as [_ Hs].
+  unfold units_ok. intros H. apply andb_prop in H as [H Hok]. apply andb_prop in H as [Hne Hs].
   destruct (g_chain_spec a Hs) as (P1 & P2).
-  unfold print, denote. rewrite P1, P2. now apply reader_sim_g2.
+  assert (Hg : g_chain a <> []).
+  { destruct a as [|[n r m b brs] t]; [discriminate|]. unfold g_chain. cbn [flat_map]. rewrite g_item_eq. discriminate. }
+  unfold print, denote. rewrite P1, P2. destruct braces.
+  - now apply reader_sim_g2.
+  - now apply reader_sim_g2_nobrace.
 Qed.
-Print Assumptions reader_sim_units.
+Theorem reader_sim_units fo a : units_ok fo a = true -> read_cgsmiles fo (print true a) = denote fo a.
+Proof. exact (reader_sim_units_gen fo true a). Qed.
+Print Assumptions reader_sim_units_gen.
 (** the property's own sentence: reading the shorthand = reading the longhand (the branch multipliers written
     out), whenever the longhand is itself a string of the grammar (decidable; it carries no branch multiplier,
     so C04 applies to it) *)
-Corollary reader_units_longhand fo a : units_ok fo a = true ->
+Corollary reader_units_longhand fo braces a : units_ok fo a = true ->
   wf fo (expand_branches a) = true -> has_branch_mult (expand_branches a) = false ->
-  read_cgsmiles fo (print true a) = read_cgsmiles fo (print true (expand_branches a)).
+  read_cgsmiles fo (print braces a) = read_cgsmiles fo (print braces (expand_branches a)).
 Proof.
-  intros Hu Hwf Hb. rewrite (reader_sim_units fo a Hu), (reader_sim_grammar fo true _ Hwf Hb).
+  intros Hu Hwf Hb. rewrite (reader_sim_units_gen fo braces a Hu), (reader_sim_grammar fo braces _ Hwf Hb).
   assert (Hrg : rg_chain true fo (expand_branches a) = true) by (apply rg_of_wf_gen; [assumption|assumption|discriminate]).
   assert (Hne : expand_branches a <> []) by (unfold wf in Hwf; destruct (expand_branches a); [discriminate|discriminate]).
   destruct (linearize_x_spec fo _ Hrg Hne) as (_ & _ & P3 & _).
